@@ -214,8 +214,14 @@ def classify(rec):
         if same_leases and renamed and all(
                 l[2] >= 0 and l[3] == "" and by_addr[(l[0], l[1], l[2])] in ("g%d" % l[1], "u%d" % l[1])
                 for l in renamed):
+            # an offer made by reusing an expired nameless entry keeps that entry's old, non-zero
+            # expiry and is therefore taken for an acknowledged lease while loading
+            stale = set(rec.get("srcnote") or [])
+            offered = [l for l in renamed if l[2] == 0]
+            if offered and all("pastexpiry:%d" % l[1] in stale and l[0] != "blk" for l in offered):
+                return "reused-offer-keeps-old-expiry"
             # offered, never acknowledged entries (nobody holds them) get a name and DNS records
-            if any(l[2] == 0 for l in renamed):
+            if offered:
                 return "restart-names-unacked-lease"
             # a running lease that had lost its name to a reservation gets its new name only now
             return "displaced-lease-nameless-until-restart"
@@ -338,7 +344,7 @@ def trace(ctx, opts, counts):
         while not rows[j]["reset"]:
             j -= 1
         want = [{"Same": w[0], "Dst": lkey(w[1]), "K": w[2], "IP": w[3], "T": w[4]} for w in b["want"]]
-        recs.append({"kind": "bad", "act": t["act"], "src": t["src"], "srcdisk": t["srcdisk"], "srcprob": t["srcprob"],
+        recs.append({"kind": "bad", "act": t["act"], "src": t["src"], "srcdisk": t["srcdisk"], "srcprob": t["srcprob"], "srcnote": t.get("srcnote") or [],
                      "want": want, "why": b["why"], "reply": t["out"],
                      "post": {"ls": t["dst"], "disk": t["disk"], "prob": t["prob"]},
                      "history": [x["act"] for x in rows[j:i + 1]], "univ": TRACE_UNIV, "seed": ctx.seed,
